@@ -9,6 +9,11 @@ from abc import ABC
 RULE = ('class tables built with types.new_class.  GenericMixin: every shape family (direct Generic[T1..Tn] with the mixin '
         'before/after and 0-2 extra plain mixins at every position; fully binding subclass with extra bases first/last/both; '
         'plain subclass chains of both; binding subclass of a plain subclass; non-generic users; unparametrised instances; '
+        'direct Generic[T1..Tn] with 1-2 extra PARAMETRISED mixin bases that know nothing about GenericMixin (an ordinary generic '
+        'class Labelled(Generic[L]) with L a variable of its own or one of T1..Tn, a two-parameter one, a subscriptable class without '
+        '__orig_bases__ like list) at every position before / after Generic[...] and GenericMixin, arguments from the vocabulary or from '
+        'T1..Tn, instantiated with and without type arguments, with binding subclasses (extra plain mixin first / last) and plain subclasses '
+        'of them; reported only: binding subclasses with a second subscripted base first / last; '
         'near misses: partially binding subclasses, re-declared Generic, two bound bases, diamonds, builtin aliases '
         '(List[int]) as bases) x n = 1..4 x type arguments from a 15-element vocabulary (enumerated for the small '
         'families, seeded otherwise) + seeded random tables of 1-6 classes.  WithDecoratedMethods: classes with 0-6 '
@@ -21,6 +26,9 @@ RULE = ('class tables built with types.new_class.  GenericMixin: every shape fam
 EXHAUSTIVE = {'quick': False, 'thorough': False}
 ASSUMPTIONS = ['classes are created by the interpreter (types.new_class); class creation that the interpreter refuses is not a case',
                'type arguments are opaque objects (identity/equality), names are (leading underscores, rest)',
+               'extra parametrised mixin bases of a directly generic class are user generic classes (typing aliases `Labelled[str]`) at every position '
+               'and subscripted classes without __orig_bases__ (types.GenericAlias, the stand-in for list[int]) before Generic[...] only: typing keeps '
+               '`Generic` among the bases when only a types.GenericAlias follows it, which the class-table model of __mro_entries__ does not describe',
                'enum values of DecoratorType members are attribute names that no other object reachable from the instance carries '
                '(guard `decoGuard`; collisions are generated and compared but reported only)']
 TRUSTED = ['CPython: `__orig_bases__` exists on a class iff a base is subscripted; `Cls[X]()` sets `__orig_class__`; C3 MRO '
@@ -202,6 +210,50 @@ def generic_cases(rng, tier):
                 lst = cls_([], cgi=True)
                 add([A, lst, cls_([P(LIB + 1, [ty(0)]), P(LIB, a1)])], LIB + 2, None, 'cgi-first')
                 add([A, lst, cls_([P(LIB, a1), P(LIB + 1, [ty(0)])])], LIB + 2, None, 'cgi-last')
+    # directly generic classes with extra PARAMETRISED mixin bases that know nothing about GenericMixin:
+    #   class Box(Labelled[str], Generic[T], GenericMixin)  with  class Labelled(Generic[L])
+    for n in range(1, NTV + 1):
+        tvs = list(range(1, n + 1))
+        for lv in ([NTV] if n < NTV else []) + [1]:          # L is a variable of its own (when one is left) / is T1 itself
+            two = [lv, 2 if lv != 2 else 3]
+            pool = [cls_([G([lv])]), cls_([G(two)]), cls_([], cgi=True)]       # ids LIB, LIB+1, LIB+2
+            npar = [1, 2, 1]
+            box = LIB + len(pool)
+
+            def fargs(f):
+                return [tv(rng.choice(tvs)) if rng.random() < 0.3 else ty(rng.randrange(NVOC)) for _ in range(npar[f])]
+            for core in ([G(tvs), PL(GM_ID)], [PL(GM_ID), G(tvs)]):
+                gi = 0 if core[0][0] == 'generic' else 1
+                layouts = [((f,), pos) for f in range(3) for pos in mix_positions(core, 1)]
+                pairs = [((f, g), pos) for f in range(3) for g in range(3) for pos in mix_positions(core, 2)]
+                layouts += pairs if big else rng.sample(pairs, 10)
+                for fs, pos in layouts:
+                    # a types.GenericAlias base (S[int]) after Generic[...] is left out: typing keeps `Generic` among the bases there
+                    # (it only looks for typing aliases), which the class-table model does not describe
+                    if any(f == 2 and p_ > gi for f, p_ in zip(fs, pos)):
+                        continue
+                    out_ = [[] for _ in range(len(core) + 1)]
+                    for f, p_ in zip(fs, pos):
+                        out_[p_].append(P(LIB + f, fargs(f)))
+                    bases = []
+                    for i, b in enumerate(core):
+                        bases += out_[i] + [b]
+                    bases += out_[len(core)]
+                    t = pool + [cls_(bases)]
+                    if not valid(t):
+                        continue
+                    add(t, box, args_for(n), 'pdirect')
+                    add(t, box, None, 'punparam')
+                    a2 = args_for(n)
+                    add(t + [cls_([P(box, a2)])], box + 1, None, 'pbinding')
+                    add(t + [cls_([PL(box)])], box + 1, None, 'plainsub-punparam')
+                    if len(fs) == 1 or big:
+                        add(t + [cls_([]), cls_([PL(box + 1), P(box, a2)])], box + 2, None, 'pbinding')
+                        add(t + [cls_([]), cls_([P(box, a2), PL(box + 1)])], box + 2, None, 'pbinding')
+                        add(t + [cls_([P(box, a2)]), cls_([PL(box + 1)])], box + 2, None, 'plainsub-pbinding')
+                        # reported only: a binding subclass with a second subscripted base ("their generic base" is not defined)
+                        add(t + [cls_([P(LIB, [ty(rng.randrange(NVOC))]), P(box, a2)])], box + 1, None, 'pbinding-extra-first')
+                        add(t + [cls_([P(box, a2), P(LIB, [ty(rng.randrange(NVOC))])])], box + 1, None, 'pbinding-extra-last')
     # non-generic users
     add([cls_([PL(GM_ID)])], LIB, None, 'nongeneric')
     add([cls_([]), cls_([PL(GM_ID), PL(LIB)])], LIB + 1, None, 'nongeneric')
@@ -218,11 +270,12 @@ def generic_cases(rng, tier):
 
 def random_table(rng):
     cgis = []
+    foreign = {}                                # classes that know nothing about GenericMixin and can be subscripted: id -> number of arguments
     table = []; arity = []                      # arity: None = not generic-related, n>0 subscriptable, 0 = bound, -1 = non-generic user
     ncls = rng.randint(1, 6)
     for k in range(ncls):
         cid = LIB + k
-        kind = rng.choice(['root', 'root', 'bind', 'bind', 'bind', 'plainsub', 'partial', 'mixin', 'multi', 'user', 'cgi'])
+        kind = rng.choice(['root', 'root', 'bind', 'bind', 'bind', 'plainsub', 'partial', 'mixin', 'multi', 'user', 'cgi', 'foreign'])
         cand = [LIB + i for i in range(k) if arity[i] is not None and arity[i] > 0]
         mixins = [LIB + i for i in range(k) if arity[i] is None and LIB + i not in cgis]
         if kind == 'root' or (kind in ('bind', 'partial') and not cand):
@@ -230,11 +283,22 @@ def random_table(rng):
             bases = [G(tvs), PL(GM_ID)]
             if rng.random() < 0.4: bases.reverse()
             if mixins and rng.random() < 0.3: bases.insert(rng.randrange(3), PL(rng.choice(mixins)))
+            if foreign and rng.random() < 0.45:
+                # extra parametrised mixin bases that know nothing about GenericMixin, anywhere (a types.GenericAlias base only
+                # before Generic[...], see generic_cases)
+                for _ in range(rng.choice([1, 1, 2])):
+                    f = rng.choice(sorted(foreign))
+                    fa = [tv(rng.choice(tvs)) if rng.random() < 0.3 else ty(rng.randrange(NVOC)) for _ in range(foreign[f])]
+                    gpos = next(i for i, b in enumerate(bases) if b[0] == 'generic')
+                    bases.insert(rng.randrange(gpos + 1) if f in cgis else rng.randrange(len(bases) + 1), P(f, fa))
             table.append(cls_(bases)); arity.append(n)
+        elif kind == 'foreign':
+            n = rng.choice([1, 1, 2]); tvs = rng.sample(range(1, NTV + 1), n)
+            table.append(cls_([G(tvs)])); arity.append(None); foreign[cid] = n
         elif kind == 'mixin':
             table.append(cls_([])); arity.append(None)
         elif kind == 'cgi':
-            table.append(cls_([], cgi=True)); arity.append(None); cgis.append(cid)
+            table.append(cls_([], cgi=True)); arity.append(None); cgis.append(cid); foreign[cid] = 1
         elif kind == 'user':
             table.append(cls_([PL(GM_ID)])); arity.append(-1)
         elif kind == 'bind':
@@ -244,6 +308,9 @@ def random_table(rng):
                 bases.insert(rng.randrange(len(bases) + 1), PL(m))
             if cgis and rng.random() < 0.5:          # a subscripted base whose origin has no __orig_bases__ (like List[int])
                 bases.insert(rng.randrange(len(bases) + 1), P(rng.choice(cgis), [ty(rng.randrange(NVOC))]))
+            elif foreign and rng.random() < 0.25:    # a second subscripted base: an ordinary generic class (reported only)
+                f = rng.choice(sorted(foreign))
+                bases.insert(rng.randrange(len(bases) + 1), P(f, [ty(rng.randrange(NVOC)) for _ in range(foreign[f])]))
             table.append(cls_(bases)); arity.append(0)
         elif kind == 'partial':
             b = rng.choice(cand); n = arity[b - LIB]
@@ -655,6 +722,24 @@ def as_map(pairs):
     return sorted((json.dumps(k), json.dumps(v)) for k, v in pairs)
 
 
+def render(c):
+    """the program of a case, as Python text (for messages only)"""
+    lib = {0: 'Generic', 1: 'GenericMixin', 2: 'ABC', 3: 'WithDecoratedMethods'}
+
+    def cn(i): return lib.get(i, f'C{i}')
+
+    def ta(a): return (f'T{a[1]}' if a[0] == 'tv' else (VOCAB_SRC[a[1]] if a[1] < NVOC else f'X{a[1]}'))
+
+    def base(b):
+        if b[0] == 'generic': return 'Generic[' + ', '.join(f'T{i}' for i in b[1]) + ']'
+        if b[0] == 'param': return cn(b[1]) + '[' + ', '.join(ta(a) for a in b[2]) + ']'
+        return cn(b[1])
+    decl = '; '.join(f"class C{LIB + k}({', '.join(base(b) for b in cd['bases'])})" + (' <subscriptable, no __orig_bases__>' if cd.get('cgi') else '')
+                     for k, cd in enumerate(c['table']))
+    inst = cn(c['cls']) + ('[' + ', '.join(ta(a) for a in c['orig']) + ']' if c['orig'] is not None else '') + '()'
+    return f'{decl}; {inst}'
+
+
 def judge(case, impl, model):
     fam = case.get('x', {}).get('fam', '?')
     if 'invalid' in impl:
@@ -676,6 +761,8 @@ def judge(case, impl, model):
     elif spec[0] == 'mustAssert':
         if impl['type_vars'] != ['raised', 'AssertionError'] or impl['type_var'] != ['raised', 'AssertionError']:
             pfail = f"non-generic class / unparametrised instance: expected AssertionError, got type_vars={impl['type_vars']} type_var={impl['type_var']}"
+    if pfail is not None:
+        pfail = f"{render(case['c'])}: {pfail}"
     tag = f"{fam}/{model['kind']}/{model['model'][0] if model['model'][0] == 'ok' else model['model'][1]}"
     nontrivial = impl['type_vars'][0] == 'ok'
     if case['c']['k'] == 'decorated':
